@@ -25,6 +25,9 @@ def rnd_sibling(rng, allow_meta=True):
     if k < 0.75:
         return ('legacy', R.legacy_id(rng.choice(NAMES)))
     kw = dict(client=rng.choice(NAMES))
+    if rng.random() < 0.1:
+        # element lengths around the short/long header boundary (client id, metadata and link payloads of 253..258 bytes)
+        kw['client'] = 'c' * rng.randrange(236, 260)
     if rng.random() < 0.5:
         kw['machine'] = rng.choice(NAMES)
     if rng.random() < 0.5:
@@ -173,7 +176,7 @@ def gen_signature(rng, nchains=None, with_cal=None, anchor=None, rfc=None, time=
         if anchor is None:
             anchor = rng.choice(['pub', 'auth', 'none', 'pub', 'auth'])
         if anchor == 'pub':
-            refs = [rng.choice(['ref', 'Financial Times, ISSN: 0307-1766', 'x'])] * rng.choice([0, 1, 2])
+            refs = [rng.choice(['ref', 'Financial Times, ISSN: 0307-1766', 'x', 'r' * rng.randrange(250, 260)])] * rng.choice([0, 1, 2])
             s.pub = R.pub_record(pub_time, calroot, refs=refs, uris=['http://x.y/z'] * rng.choice([0, 1]))
             s.pub_tuple = (pub_time, calroot)
         elif anchor == 'auth':
